@@ -121,8 +121,10 @@ func loadTMS(name string) tms20.TileMatrixSet {
 	return t
 }
 
-var sqlKeywords = map[string]bool{"as": true, "by": true, "if": true, "in": true, "is": true, "no": true, "of": true, "on": true, "or": true, "to": true,
-	"add": true, "all": true, "and": true, "asc": true, "end": true, "for": true, "key": true, "not": true, "row": true, "set": true, "do": true}
+var pragmaCols = map[string]bool{"cid": true, "name": true, "type": true, "notnull": true, "dflt_value": true, "pk": true}
+
+// column and table names that are SQL keywords are legal (quoted) in a GeoPackage
+var sqlKeywords = []string{"order", "group", "select", "table", "index", "else", "from", "where", "default", "check", "primary", "unique", "values", "key", "to", "as", "by", "in", "is", "not", "null", "on", "or", "and", "all", "add", "set", "row", "end", "case", "when", "then", "limit", "offset", "union", "join", "left", "exists", "between", "like", "desc", "asc"}
 
 func ident(r *simrt.RNG, used map[string]bool) string {
 	first := "abcdefghijklmnopqrstuvwxyz"
@@ -132,16 +134,25 @@ func ident(r *simrt.RNG, used map[string]bool) string {
 		rest += "ABCDEFGHIJKLMNOPQRSTUVWXYZ"
 	}
 	for {
+		if r.Chance(0.08) {
+			k := sqlKeywords[r.Intn(len(sqlKeywords))]
+			if !used[k] {
+				used[k] = true
+				return k
+			}
+		}
 		n := 1 + r.Intn(10)
 		b := []byte{first[r.Intn(len(first))]}
 		for i := 1; i < n; i++ {
 			b = append(b, rest[r.Intn(len(rest))])
 		}
 		s := string(b)
-		if len(s) < 4 {
+		if len(s) < 2 {
 			s += "_c"
 		}
-		if sqlKeywords[strings.ToLower(s)] || used[strings.ToLower(s)] || strings.HasPrefix(strings.ToLower(s), "gpkg_") || strings.HasPrefix(strings.ToLower(s), "rtree_") || strings.HasPrefix(strings.ToLower(s), "sqlite_") {
+		// (cid, name, type, notnull, dflt_value, pk: go-spatial looks the primary key up with
+		// pragma_table_info(("<table>")), where such a table name resolves to a column)
+		if used[strings.ToLower(s)] || pragmaCols[strings.ToLower(s)] || strings.HasPrefix(strings.ToLower(s), "gpkg_") || strings.HasPrefix(strings.ToLower(s), "rtree_") || strings.HasPrefix(strings.ToLower(s), "sqlite_") {
 			continue
 		}
 		used[strings.ToLower(s)] = true // SQLite identifiers are case-insensitive
@@ -287,15 +298,16 @@ func genTable(r *simrt.RNG, used map[string]bool, srs gpkgh.SRS, t tms20.TileMat
 			// the new (later) name is contained in an earlier one
 			lo := r.Intn(2)
 			cand := prefixOf[lo : lo+3+r.Intn(len(prefixOf)-3-lo)]
-			if cand[0] >= 'a' && cand[0] <= 'z' && !used[cand] && !sqlKeywords[cand] && cand != prefixOf {
+			lc := strings.ToLower(cand)
+			if ((cand[0] >= 'a' && cand[0] <= 'z') || (cand[0] >= 'A' && cand[0] <= 'Z')) && !used[lc] && !pragmaCols[lc] && cand != prefixOf {
 				tb.Name = cand
-				used[cand] = true
+				used[lc] = true
 			}
 		} else {
 			for _, suf := range []string{"_1", "x", "_" + prefixOf} {
-				if !used[prefixOf+suf] {
+				if !used[strings.ToLower(prefixOf+suf)] {
 					tb.Name = prefixOf + suf
-					used[tb.Name] = true
+					used[strings.ToLower(tb.Name)] = true
 					break
 				}
 			}
